@@ -6,10 +6,16 @@
 package control
 
 import (
+	"encoding/binary"
+	stderrors "errors"
 	"fmt"
 	"net"
 	"net/netip"
 	"unsafe"
+
+	"github.com/cilium/ebpf"
+	"github.com/cilium/ebpf/rlimit"
+	"golang.org/x/sys/unix"
 
 	"github.com/daeuniverse/dae/common"
 	"github.com/daeuniverse/dae/common/consts"
@@ -43,42 +49,125 @@ func verifC03FromRR(rr bpfRoutingResult, from string) VerifC03Result {
 	return VerifC03Result{Outbound: rr.Outbound, Mark: rr.Mark, Must: rr.Must, Dscp: rr.Dscp, Mac: rr.Mac, Pid: rr.Pid, Pname: rr.Pname, From: from}
 }
 
-// VerifC03Retrieve is controlPlaneCore.RetrieveRoutingResult with the two ebpf.Map.Lookup calls replaced by `lookup`
-// (map name, key bytes -> value bytes or nil) and the monotonic clock replaced by nowNs; every other step is the
-// production code: key = bpfTuplesKeyFromAddrPorts, conn_state_map first (value decoded as bpfConnState, skipped when
-// HasRouting == 0, converted by routingResultFromConnState), then routing_handoff_map (bpfRoutingHandoffEntry,
-// routingHandoffExpired, routingResultFromConnState).
-func VerifC03Retrieve(src, dst netip.AddrPort, l4proto uint8, nowNs uint64, lookup func(m string, key []byte) []byte) (res VerifC03Result, found bool, err error) {
-	tuples := bpfTuplesKeyFromAddrPorts(src, dst, l4proto)
-	key := verifC03Bytes(&tuples)
-	switch l4proto {
-	case consts.IPPROTO_TCP, consts.IPPROTO_UDP:
-		if b := lookup("conn_state_map", key); b != nil {
-			var cs bpfConnState
-			if uintptr(len(b)) != unsafe.Sizeof(cs) {
-				return res, false, fmt.Errorf("conn_state_map value is %d bytes, bpfConnState is %d", len(b), unsafe.Sizeof(cs))
-			}
-			copy(unsafe.Slice((*byte)(unsafe.Pointer(&cs)), unsafe.Sizeof(cs)), b)
-			if cs.Meta.Data.HasRouting != 0 {
-				rr := routingResultFromConnState(cs.Meta.Data.Mark, cs.Meta.Data.Must, cs.Meta.Data.Outbound, cs.Mac, cs.Meta.Data.Dscp, cs.Pname, cs.Pid)
-				return verifC03FromRR(rr, "conn_state_map"), true, nil
-			}
-		}
+// VerifC03Mirror lets the REAL controlPlaneCore.RetrieveRoutingResult run on the bytes the kernel program wrote:
+// two real BPF hash maps (same key/value sizes as the C maps) stand in for conn_state_map and routing_handoff_map of
+// a controlPlaneCore; Load copies the entries kdrv holds into them verbatim (only the hand-over stamp is moved from
+// the virtual clock onto CLOCK_MONOTONIC, keeping its age), Retrieve is the production call, side effects included
+// (an entry the control plane deletes is gone for the next Retrieve until the next Load).
+type VerifC03Mirror struct {
+	core    *controlPlaneCore
+	conn    *ebpf.Map
+	handoff *ebpf.Map
+	valSize [2]int
+	loaded  [2]map[string]struct{}
+}
+
+func VerifC03NewMirror(keySize, connValueSize, handoffValueSize uint32) (*VerifC03Mirror, error) {
+	if err := rlimit.RemoveMemlock(); err != nil {
+		return nil, fmt.Errorf("RemoveMemlock: %w", err)
 	}
-	b := lookup("routing_handoff_map", key)
-	if b == nil {
-		return res, false, nil
+	mk := func(name string, vs uint32) (*ebpf.Map, error) {
+		return ebpf.NewMap(&ebpf.MapSpec{Name: name, Type: ebpf.Hash, KeySize: keySize, ValueSize: vs, MaxEntries: 1024, Flags: unix.BPF_F_NO_PREALLOC})
+	}
+	// The value size of a stand-in map is what cilium/ebpf marshals for the Go struct (encoding/binary size). bpf2go
+	// output pads explicitly so that this equals the C sizeof; the stand-in structs of this tree leave the C tail
+	// padding implicit, so the kernel's value may be longer by that padding (< 8 bytes), never shorter.
+	goConn, goHandoff := binary.Size(bpfConnState{}), binary.Size(bpfRoutingHandoffEntry{})
+	if goConn <= 0 || goHandoff <= 0 || goConn > int(connValueSize) || int(connValueSize)-goConn >= 8 || goHandoff > int(handoffValueSize) || int(handoffValueSize)-goHandoff >= 8 {
+		return nil, fmt.Errorf("Go structs do not fit the C values: bpfConnState %d vs %d, bpfRoutingHandoffEntry %d vs %d", goConn, connValueSize, goHandoff, handoffValueSize)
+	}
+	if binary.Size(bpfTuplesKey{}) != int(keySize) {
+		return nil, fmt.Errorf("bpfTuplesKey is %d bytes, struct tuples_key %d", binary.Size(bpfTuplesKey{}), keySize)
+	}
+	connValueSize, handoffValueSize = uint32(goConn), uint32(goHandoff)
+	c, err := mk("c03_conn_state", connValueSize)
+	if err != nil {
+		return nil, fmt.Errorf("creating the conn_state_map stand-in (needs CAP_BPF): %w", err)
+	}
+	h, err := mk("c03_handoff", handoffValueSize)
+	if err != nil {
+		c.Close()
+		return nil, fmt.Errorf("creating the routing_handoff_map stand-in (needs CAP_BPF): %w", err)
+	}
+	m := &VerifC03Mirror{core: &controlPlaneCore{}, conn: c, handoff: h, valSize: [2]int{goConn, goHandoff}}
+	m.core.bpf.Store(&bpfObjects{bpfMaps: bpfMaps{ConnStateMap: c, RoutingHandoffMap: h}})
+	m.loaded[0], m.loaded[1] = map[string]struct{}{}, map[string]struct{}{}
+	return m, nil
+}
+
+func (m *VerifC03Mirror) Close() {
+	m.conn.Close()
+	m.handoff.Close()
+}
+
+// Load makes the two maps hold exactly the given entries. readAtNs is the virtual time at which the control plane
+// will read; hand-over stamps keep their age relative to it.
+func (m *VerifC03Mirror) Load(connKeys, connVals, handoffKeys, handoffVals [][]byte, readAtNs uint64) error {
+	mono, err := monotonicNowNano()
+	if err != nil {
+		return err
 	}
 	var e bpfRoutingHandoffEntry
-	if uintptr(len(b)) != unsafe.Sizeof(e) {
-		return res, false, fmt.Errorf("routing_handoff_map value is %d bytes, bpfRoutingHandoffEntry is %d", len(b), unsafe.Sizeof(e))
+	off := unsafe.Offsetof(e.LastSeenNs)
+	for i, mp := range []*ebpf.Map{m.conn, m.handoff} {
+		keys, vals := connKeys, connVals
+		if i == 1 {
+			keys, vals = handoffKeys, handoffVals
+		}
+		want := map[string]struct{}{}
+		for _, k := range keys {
+			want[string(k)] = struct{}{}
+		}
+		for k := range m.loaded[i] {
+			if _, ok := want[k]; !ok {
+				if err := mp.Delete([]byte(k)); err != nil && !stderrors.Is(err, ebpf.ErrKeyNotExist) {
+					return err
+				}
+			}
+		}
+		for j, k := range keys {
+			v := vals[j]
+			if len(v) < m.valSize[i] {
+				return fmt.Errorf("kernel value of %d bytes is shorter than the Go struct (%d)", len(v), m.valSize[i])
+			}
+			for _, pad := range v[m.valSize[i]:] {
+				if pad != 0 {
+					return fmt.Errorf("kernel value has data beyond the Go struct: % x", v)
+				}
+			}
+			v = v[:m.valSize[i]]
+			if i == 1 && uintptr(len(v)) >= off+8 {
+				v = append([]byte(nil), v...)
+				ls := binary.LittleEndian.Uint64(v[off:])
+				if ls != 0 && ls <= readAtNs {
+					binary.LittleEndian.PutUint64(v[off:], mono-(readAtNs-ls))
+				}
+			}
+			if err := mp.Update(k, v, ebpf.UpdateAny); err != nil {
+				return err
+			}
+		}
+		m.loaded[i] = want
 	}
-	copy(unsafe.Slice((*byte)(unsafe.Pointer(&e)), unsafe.Sizeof(e)), b)
-	if routingHandoffExpired(nowNs, e.LastSeenNs) {
-		return res, false, nil
+	return nil
+}
+
+// Retrieve = controlPlaneCore.RetrieveRoutingResult (production code, production side effects).
+func (m *VerifC03Mirror) Retrieve(src, dst netip.AddrPort, l4proto uint8) (res VerifC03Result, found bool, err error) {
+	rr, err := m.core.RetrieveRoutingResult(src, dst, l4proto)
+	if err != nil {
+		if stderrors.Is(err, ebpf.ErrKeyNotExist) {
+			return res, false, nil
+		}
+		return res, false, err
 	}
-	rr := routingResultFromConnState(e.Result.Mark, e.Result.Must, e.Result.Outbound, e.Result.Mac, e.Result.Dscp, e.Result.Pname, e.Result.Pid)
-	return verifC03FromRR(rr, "routing_handoff_map"), true, nil
+	from := "routing_handoff_map"
+	key := bpfTuplesKeyFromAddrPorts(src, dst, l4proto)
+	var cs bpfConnState
+	if e := m.conn.Lookup(&key, &cs); e == nil && cs.Meta.Data.HasRouting != 0 {
+		from = "conn_state_map"
+	}
+	return verifC03FromRR(*rr, from), true, nil
 }
 
 // VerifC03ConnState decodes a conn_state_map value with the Go struct (for state canonicalisation and diagnostics).
